@@ -99,7 +99,8 @@ def run(ctx):
                     prev_crashed_band = None
                 if i > 0 and c["marks"][i - 1]["kind"] == "backup" and isinstance(r[i - 1], dict) and r[i - 1].get("crashed"):
                     ids = [int(d[1:]) for d in rs["arch"]["dirs"] if scen.BAND_RE.match(d)]
-                    if ids:
+                    before_ids = [int(d[1:]) for d in (prev_arch or {"dirs": []})["dirs"] if scen.BAND_RE.match(d)]
+                    if ids and max(ids) not in before_ids:       # (a backup killed before it created its band recorded nothing)
                         prev_crashed_band = (max(ids), c["marks"][i - 1]["tree"])
                 prev_arch = rs["arch"]
             if not ok:
